@@ -40,7 +40,7 @@ theorem spec_processMessage_sp (S : Spool) (hS : SpoolShape S) (env : PEnv) (orc
     subst hname hpath hmsg hparts hfd
     dsimp only
     -- evaluation: the questions to the operating system leave directories, files and older handles alone
-    refine wp_bind_mono (wp_inv_mono (wp_evalFoot _ orc.timeFormat expr (parseMessage input) fl w10) (fun _ _ => trivial)) ?_
+    refine wp_bind_mono (wp_inv_mono (wp_evalFoot _ expr (parseMessage input) fl w10) (fun _ _ => trivial)) ?_
     rintro ev w1 ⟨ef, as, hev⟩
     have inv1 : Inv S w w1 := inv10.ofFreshN ef.dirs (fun x hx => ef.objs x (Nat.lt_of_lt_of_le hx inv10.len)) ef.len
     have hdirs1 : w1.dirs = w.dirs := ef.dirs.trans hdirs10
